@@ -12,6 +12,7 @@ import (
 var (
 	ErrSimClosed = errors.New("sim: use of closed transport")
 	ErrSimFault  = errors.New("sim: injected transport fault")
+	ErrSimSoft   = error(softErr{})
 	ErrSimPeer   = errors.New("sim: write to a transport whose peer is gone")
 )
 
@@ -54,7 +55,7 @@ type half struct {
 // Fault describes a planned transport failure on one end, at its K-th I/O call (1-based).
 type Fault struct {
 	K    int
-	Kind string // "read_err", "read_err_data", "write_err", "peer_close", "local_close"
+	Kind string // "read_err", "read_err_data", "read_err_soft", "write_err", "peer_close", "local_close"
 	J    int    // write_err: bytes accepted before the error; read_err_data: max bytes delivered with the error
 }
 
@@ -155,7 +156,7 @@ func (e *End) Write(p []byte) (int, error) {
 			e.shut(ErrSimClosed) // someone else closed the transport locally (not counted as the library's Close)
 		case "peer_close":
 			e.peer.Fail(false)
-		case "write_err", "read_err", "read_err_data":
+		case "write_err", "read_err", "read_err_data", "read_err_soft":
 			// a fault planned for a read that lands on a write is a write error
 			j := f.J
 			if j > len(p) {
@@ -217,6 +218,10 @@ func (e *End) Read(p []byte) (int, error) {
 		case "read_err", "write_err":
 			e.Fail(true)
 			return 0, ErrSimFault
+		case "read_err_soft":
+			// the read reports an error of the kind a net.Conn calls temporary (a deadline, EAGAIN) and the
+			// socket stays usable: to the library an error returned by a read is still a failed transport
+			return 0, ErrSimSoft
 		case "read_err_data":
 			h := e.in
 			h.mu.Lock()
@@ -538,3 +543,10 @@ func (l *Listener) Close() error {
 
 func (l *Listener) Closes() int    { l.mu.Lock(); defer l.mu.Unlock(); return l.closes }
 func (l *Listener) Addr() net.Addr { return simAddr{} }
+
+// softErr is a read error that describes itself as temporary and as a timeout, as net.Error values do.
+type softErr struct{}
+
+func (softErr) Error() string   { return "sim: injected temporary read error" }
+func (softErr) Timeout() bool   { return true }
+func (softErr) Temporary() bool { return true }
